@@ -75,7 +75,9 @@ impl dust_dds::dds_async::data_reader_listener::DataReaderListener<KeyedData> fo
         std::future::ready(())
     }
     fn on_requested_incompatible_qos(&mut self, _r: DataReaderAsync<KeyedData>, s: dust_dds::infrastructure::status::RequestedIncompatibleQosStatus) -> impl std::future::Future<Output = ()> + Send {
-        self.core.log(json!({"ev": "Listener", "level": self.level, "idx": self.idx, "kind": "RequestedIncompatibleQos", "tot": s.total_count, "chg": s.total_count_change, "last": s.last_policy_id}));
+        self.core.log(json!({"ev": "Listener", "level": self.level, "idx": self.idx, "kind": "RequestedIncompatibleQos", "tot": s.total_count, "chg": s.total_count_change, "last": s.last_policy_id,
+                              "lastn": crate::compat::policy_name(s.last_policy_id),
+                              "policies": s.policies.iter().filter(|p| p.count != 0).map(|p| (crate::compat::policy_name(p.policy_id), json!(p.count))).collect::<serde_json::Map<String, Value>>()}));
         std::future::ready(())
     }
     fn on_subscription_matched(&mut self, _r: DataReaderAsync<KeyedData>, s: dust_dds::infrastructure::status::SubscriptionMatchedStatus) -> impl std::future::Future<Output = ()> + Send {
@@ -95,7 +97,9 @@ impl dust_dds::dds_async::data_writer_listener::DataWriterListener<KeyedData> fo
         std::future::ready(())
     }
     fn on_offered_incompatible_qos(&mut self, _w: DataWriterAsync<KeyedData>, s: dust_dds::infrastructure::status::OfferedIncompatibleQosStatus) -> impl std::future::Future<Output = ()> + Send {
-        self.core.log(json!({"ev": "Listener", "level": self.level, "idx": self.idx, "kind": "OfferedIncompatibleQos", "tot": s.total_count, "chg": s.total_count_change, "last": s.last_policy_id}));
+        self.core.log(json!({"ev": "Listener", "level": self.level, "idx": self.idx, "kind": "OfferedIncompatibleQos", "tot": s.total_count, "chg": s.total_count_change, "last": s.last_policy_id,
+                              "lastn": crate::compat::policy_name(s.last_policy_id),
+                              "policies": s.policies.iter().filter(|p| p.count != 0).map(|p| (crate::compat::policy_name(p.policy_id), json!(p.count))).collect::<serde_json::Map<String, Value>>()}));
         std::future::ready(())
     }
     fn on_publication_matched(&mut self, _w: DataWriterAsync<KeyedData>, s: dust_dds::infrastructure::status::PublicationMatchedStatus) -> impl std::future::Future<Output = ()> + Send {
@@ -878,8 +882,12 @@ impl World {
                     core.log(json!({"ev": "CompatResult", "err": "publisher/subscriber creation failed"}));
                     return;
                 };
-                let w = publisher.create_datawriter::<KeyedData>(&self.parts[0].topic, QosKind::Specific(wq), NO_LISTENER, NO_STATUS).await;
-                let r = subscriber.create_datareader::<KeyedData>(&self.parts[1].topic, QosKind::Specific(rq), NO_LISTENER, NO_STATUS).await;
+                // the incompatible-QoS statuses are observed through listeners (the status getters of the API are not implemented)
+                let cid = st["id"].as_u64().unwrap_or(0) as usize;
+                let wl = RecWriterListener { core: core.clone(), level: "compat-w", idx: cid };
+                let rl = RecReaderListener { core: core.clone(), level: "compat-r", idx: cid };
+                let w = publisher.create_datawriter::<KeyedData>(&self.parts[0].topic, QosKind::Specific(wq), Some(wl), &[dust_dds::infrastructure::status::StatusKind::OfferedIncompatibleQos]).await;
+                let r = subscriber.create_datareader::<KeyedData>(&self.parts[1].topic, QosKind::Specific(rq), Some(rl), &[dust_dds::infrastructure::status::StatusKind::RequestedIncompatibleQos]).await;
                 match (w, r) {
                     (Ok(w), Ok(r)) => {
                         self.sleep_ms(st["ms"].as_i64().unwrap_or(400)).await;
